@@ -10,6 +10,8 @@ CONSTANTS
   MaxW = 3
   LookupMode = "fresh"
   MaxConns = 1000
+  LookupLocks = "single"
+  MaxWrites = 0
   Cases = {}
 INVARIANTS NoBytes NoEarlyClose KeepsReading MatchSound ConsumeExact FoundWhenComplete NeverDropsMatching MarkedUsed TableSound HighWater
 POSTCONDITION Post
